@@ -3,14 +3,16 @@
 (a) xh : ``_encode_resume_token`` / ``_decode_resume_token`` (real bytecode, ``struct`` := little-endian field
          model validated against the real ``struct``): decode(encode(s, c)) == (s, c or None) for all byte
          strings <= 4; every blob <= 8 bytes either decodes to exactly the parts that re-encode to it, or is
-         rejected with ValueError — rejected <=> shorter than 4 bytes or the length prefix overruns the blob.
+         rejected with ValueError (the blob is opaque: which blobs are rejected, its length and layout are NOT asserted).
 (b) xh : ``_run_http_producer_turn`` (real bytecode over the size-abstract Arrow model of harness/C16.py, stub
          token minting): for every wire cap (None / any int) and every producer script <= N ticks with symbolic
          batch sizes, following the minted cursor turn after turn delivers exactly the emitted batches, once
          each, in order; resuming from the cursor of *any* turn delivers exactly the remaining ones; only the
          last body of the chain lacks a continuation sentinel; and within every turn a further produce iteration
-         starts only while the body is still below the cap, i.e. a turn's body exceeds the cap by at most the last
-         batch written (+ sentinel) — the same bound C16's producer_turn_body_exceeds_cap_by_last_batch_only decides.
+         starts only while the body does not yet exceed the cap (== cap admitted), i.e. a turn's body exceeds the cap by
+         at most the last batch written (+ sentinel) — the same bound C16's producer_turn_body_exceeds_cap_by_last_batch_only
+         decides. Replays: real servers + real client under a cap sweep (batch sizes following the counterexample), and
+         per-batch resume tokens resumed on the same and on a second worker sharing only the token key.
 (c) xh : ``HttpStreamSession._resume_token`` / ``seek_to_token`` / ``_token_metadata`` (real methods): whatever a session
          held before (own cursor, own call token from its own /init, preloaded batches, finished flag), after
          ``seek_to_token(blob)`` its next request carries exactly the blob's cursor AND the blob's call token, so a
@@ -110,7 +112,7 @@ def _replay_roundtrip(args: dict) -> str | None:
         got = cl._decode_resume_token(tok)
     except Exception as e:  # noqa: BLE001
         return f"decode(encode({s!r}, {c!r})) raised {e!r}"
-    if got != (s, c or None):
+    if got[0] != s or (got[1] or None) != (c or None):
         return f"decode(encode({s!r}, {c!r})) = {got!r}"
     return None
 
@@ -126,30 +128,29 @@ def resume_token_round_trips(s: bytes, c: bytes, none: bool) -> bool:
     try:
         tok = _enc(s, call)
         s2, c2 = _dec(tok)
+    except HarnessModelError:
+        raise
     except Exception:  # noqa: BLE001
         return False
-    # layout: 4-byte prefix + state + call; nothing else
-    if len(tok) != 4 + len(s) + (0 if none else len(c)):
-        return False
-    return s2 == s and c2 == (call or None)
+    # (the blob is opaque: nothing is asserted about its length or layout)
+    # (an empty call token is never minted: whether it comes back as b"" or None is not asserted)
+    return s2 == s and (c2 or None) == (call or None)
 
 
 _BL = pick(4, 6)
 
 
 def _replay_decode(args: dict) -> str | None:
+    # layout-free: an arbitrary blob is either rejected (ValueError) or stands for exactly one (cursor, call) pair
     tok = args["tok"]
-    overrun = len(tok) < 4 or 4 + int.from_bytes(tok[:4], "little") > len(tok)
     try:
         s2, c2 = cl._decode_resume_token(tok)
     except ValueError:
-        return None if overrun else f"decode rejected the well-formed blob {tok!r}"
+        return None
     except Exception as e:  # noqa: BLE001
         return f"decode({tok!r}) raised {e!r} (only ValueError is documented)"
-    if overrun:
-        return f"decode accepted the overrunning blob {tok!r} -> {(s2, c2)!r}"
     if cl._encode_resume_token(s2, c2) != tok:
-        return f"decode({tok!r}) = {(s2, c2)!r} does not re-encode to the blob"
+        return f"decode({tok!r}) = {(s2, c2)!r} does not re-encode to the blob (two blobs stand for one resume point, or bytes were dropped)"
     return None
 
 
@@ -163,19 +164,14 @@ def resume_token_decode_is_exact_or_rejects(tok: bytes) -> bool:
     try:
         s2, c2 = _dec(tok)
     except ValueError:
-        if len(tok) < 4:
-            return True
-        n = tok[0] + (tok[1] << 8) + (tok[2] << 16) + (tok[3] << 24)
-        return 4 + n > len(tok)
+        return True  # rejected (which blobs are rejected is the private layout's business; round trips are decided above)
+    except HarnessModelError:
+        raise
     except Exception:  # noqa: BLE001
-        return False
-    if len(tok) < 4:
-        return False
-    n = tok[0] + (tok[1] << 8) + (tok[2] << 16) + (tok[3] << 24)
-    if 4 + n > len(tok) or len(s2) != n:
-        return False
-    # the parts are exactly the blob's content (nothing dropped, nothing invented), and the mapping is injective
-    return _enc(s2, c2) == tok and (c2 is None) == (len(tok) == 4 + n)
+        return False  # only ValueError is documented to escape
+    # accepted: the parts are exactly the blob's content (nothing dropped, nothing invented) — the blob is the
+    # one encoding of that resume point, so no two blobs are confused
+    return _enc(s2, c2) == tok
 
 
 _TL = pick(8, 10)
@@ -189,13 +185,15 @@ def _turn(app, script, fin_same, cursor):  # type: ignore[no-untyped-def]
     """One turn from ``cursor``: returns (delivered tags, next cursor or None, finished-without-sentinel, error?)."""
     state = M.ScriptState(script, fin_same, cursor)
     blob, outcome, starts, _ups = M.run_producer_turn(app, state)
-    # chunking bound of the property: "a turn's body exceeds the cap by at most the last batch written" — producing
-    # goes on only while the body is still below the cap (no cap: one produce iteration per turn)
+    # chunking bound of the property: "a turn's body exceeds the cap by at most the last batch written" — a further
+    # produce iteration may start only while the body does not yet exceed the cap (body == cap admits one more batch:
+    # the body then exceeds the cap by exactly that last batch). Without a cap the property bounds nothing.
     cap = app._max_response_bytes
-    for st in starts[1:]:
-        if cap is None or not (st < cap):
-            _OVERSHOOT.append((cap, list(starts)))
-            return None
+    if cap is not None:
+        for st in starts[1:]:
+            if st > cap:
+                _OVERSHOOT.append((cap, list(starts)))
+                return None
     tags: list = []
     nxt = None
     n_sent = 0
@@ -264,6 +262,8 @@ def _real_sequences(rows: list[int], fin_same: bool, caps: list) -> tuple[list, 
         with http_connect(M.RSvc, client=client, compression_level=None) as proxy:
             for ab in proxy.gen():
                 seq.append(ab.batch.num_rows)
+                if len(seq) > len(rows) + 4:
+                    break  # a stream that no longer ends: what was seen so far already differs
         got[cap] = seq
     return rows, got
 
@@ -277,11 +277,27 @@ def _replay_chunking(args: dict) -> str | None:
     return M._replay_producer_body({"fin_same": args.get("fin_same", False)})
 
 
-def _replay_sequences(args: dict) -> str | None:
+def _rows_of(args: dict) -> list[int]:
+    """Real batch lengths following the counterexample's relative sizes (kept pairwise distinct: rows identify a batch)."""
     n = max(1, min(4, args["n"]))
-    rows = [10 + 7 * i for i in range(n)]
-    _, base = _real_sequences(rows, args["fin_same"], [None])
+    return [4 * ((args.get("F%d" % i, 8 * (i + 2)) - 8) // 8) + i + 1 for i in range(n)]
+
+
+def _replay_sequences(args: dict) -> str | None:
+    """The real client's iterated sequence under a cap sweep — once with batch sizes following the counterexample,
+    once with the fixed reference sizes."""
+    n = max(1, min(4, args["n"]))
+    for rows in (_rows_of(args), [10 + 7 * i for i in range(n)]):
+        r = _replay_sequences_rows(args, rows)
+        if r is not None:
+            return r
+    return None
+
+
+def _replay_sequences_rows(args: dict, rows: list[int]) -> str | None:
     dry_server_caps: list = [None, 1]
+    if args.get("has_wc"):
+        dry_server_caps.append(args["wire_cap"])  # the counterexample's own cap (bytes of a real body, for what it is worth)
     # message boundaries of the uncapped-in-one-body run
     from vgi_rpc.http._testing import make_sync_client
     from vgi_rpc.rpc import RpcServer
@@ -291,11 +307,16 @@ def _replay_sequences(args: dict) -> str | None:
     from vgi_rpc.http import http_connect
 
     with http_connect(M.RSvc, client=client, compression_level=None) as proxy:
-        for _ in proxy.gen():
-            pass
+        for k, _ in enumerate(proxy.gen()):
+            if k > len(rows) + 4:
+                break
     ends = M._message_ends(client.responses[0]["content"])
+    prev = 0
     for e in ends:
-        dry_server_caps += [e - 1, e, e + 1]
+        # every message boundary (the comparisons the turn loop can make flip there) and the inside of every message
+        dry_server_caps += [e - 1, e, e + 1, (prev + e) // 2]
+        prev = e
+    dry_server_caps = list(dict.fromkeys(c for c in dry_server_caps if c is None or c >= 1))
     ref, got = _real_sequences(rows, args["fin_same"], dry_server_caps)
     for cap, seq in got.items():
         if seq != ref:
@@ -303,12 +324,67 @@ def _replay_sequences(args: dict) -> str | None:
     return None
 
 
+def _replay_resume(args: dict) -> str | None:
+    """Real servers and the real client: per-batch resume tokens taken on worker A (``next_with_token``), each resumed
+    (``resume_stream``) on A itself (warm) and on a second worker B sharing only the token key (cold for that stream)."""
+    from vgi_rpc.http import http_connect
+    from vgi_rpc.http._testing import make_sync_client
+    from vgi_rpc.rpc import RpcServer
+
+    key = b"0123456789abcdef0123456789abcdef"
+    n = max(1, min(4, args["n"]))
+    for rows in (_rows_of(args), [10 + 7 * i for i in range(n)]):
+        M._REAL.update(rows=rows, fin_same=args["fin_same"], log=False)
+        ca = make_sync_client(RpcServer(M.RSvc, M.RImpl()), token_key=key, compression_level=None)
+        cb = make_sync_client(RpcServer(M.RSvc, M.RImpl()), token_key=key, compression_level=None)
+        with http_connect(M.RSvc, client=ca, compression_level=None) as prox_a, http_connect(M.RSvc, client=cb, compression_level=None) as prox_b:
+            s = prox_a.gen()
+            seen: list = []
+            toks: list = []
+            while len(seen) <= len(rows):
+                ab, tok = s.next_with_token()
+                if ab is None:
+                    break
+                seen.append(ab.batch.num_rows)
+                toks.append(tok)
+            if seen != rows:
+                return f"real producer emitting batches of {rows} rows, read one by one with next_with_token: client saw {seen}"
+            for j, tok in enumerate(toks):
+                if tok is None:
+                    continue  # no resume point handed out after this batch (end of stream)
+                for label, px in (("the worker that served it", prox_a), ("another worker sharing the token key", prox_b)):
+                    rest = []
+                    for ab in px.resume_stream("gen", tok, output_schema=M._RSCHEMA):
+                        rest.append(ab.batch.num_rows)
+                        if len(rest) > len(rows) + 4:
+                            break  # no longer ends
+                    if rest != rows[j + 1:]:
+                        return (f"real producer emitting batches of {rows} rows: resuming on {label} from the resume token handed out with "
+                                f"batch #{j} yields {rest}, not the remaining {rows[j + 1:]}")
+    return None
+
+
+def _replay_resume_or_bound(args: dict) -> str | None:
+    return _replay_resume(args) or _replay_sequences(args) or M._replay_producer_body({"fin_same": args.get("fin_same", False)})
+
+
+def _sig_producer(args: dict, first: str) -> str:
+    """Which real-code judgement reproduces the counterexample (the conditions share the chain walker)."""
+    order = [("C11:producer:resume-differs", _replay_resume), ("C11:producer:sequence-depends-on-chunking", _replay_sequences)]
+    if first == "sequence":
+        order.reverse()
+    for sig, fn in order:
+        if fn(args):
+            return sig
+    return "C11:producer:turn-body-overshoots-cap"
+
+
 _STUBS = [*M._STUBS_D]
 
 
 @cond(q=60, t=400, stubs=_STUBS, encoded=[aps._run_http_producer_turn, wire._flush_collector],
       bound="1..%d data ticks, framed sizes symbolic, cap None/any int, finish on same/own tick" % _TICKS,
-      replay=_replay_chunking, signature=lambda a, c: "C11:producer:sequence-depends-on-chunking")
+      replay=_replay_chunking, signature=lambda a, c: _sig_producer(a, "sequence"))
 def producer_sequence_independent_of_cap(n: int, F0: int, F1: int, F2: int, F3: int, log0: bool, fin_same: bool,
                                          wire_cap: int, has_wc: bool, H: int, Z: int) -> bool:
     """
@@ -322,7 +398,7 @@ def producer_sequence_independent_of_cap(n: int, F0: int, F1: int, F2: int, F3: 
     try:
         r = _chain(app, script, fin_same, 0, n + 1)
     except HarnessModelError:
-        return False
+        raise
     except Exception:  # noqa: BLE001
         return False
     if r is None:
@@ -339,7 +415,7 @@ def producer_sequence_independent_of_cap(n: int, F0: int, F1: int, F2: int, F3: 
 
 @cond(q=60, t=400, stubs=_STUBS, encoded=[aps._run_http_producer_turn, wire._flush_collector],
       bound="1..%d data ticks, framed sizes symbolic, cap None/any int; resume from every turn boundary" % _TICKS,
-      replay=_replay_chunking, signature=lambda a, c: "C11:producer:resume-differs")
+      replay=_replay_resume_or_bound, signature=lambda a, c: _sig_producer(a, "resume"))
 def resume_from_any_turn_yields_the_remainder(n: int, F0: int, F1: int, F2: int, F3: int, fin_same: bool,
                                               wire_cap: int, has_wc: bool, k: int) -> bool:
     """
@@ -363,7 +439,7 @@ def resume_from_any_turn_yields_the_remainder(n: int, F0: int, F1: int, F2: int,
         app2 = M.FApp(M.FServer(None), wire_cap if has_wc else None, None)
         r2 = _chain(app2, script, fin_same, start, n + 1)
     except HarnessModelError:
-        return False
+        raise
     except Exception:  # noqa: BLE001
         return False
     if r2 is None:
@@ -416,11 +492,11 @@ def _replay_seek(args: dict) -> str | None:
                  finished=args["b_finished"])
     b.seek_to_token(tok)
     want_call = (None if args["a_none"] else args["c_a"]) or None
-    if b._state_bytes != args["s_a"] or b._call_state_bytes != want_call:
+    if b._state_bytes != args["s_a"] or (b._call_state_bytes or None) != want_call:
         return (f"session holding call token {b._call_state_bytes!r} after seek_to_token(resume token of a stream with cursor {args['s_a']!r}, "
                 f"call token {want_call!r}): the next request would carry cursor {b._state_bytes!r} with call token {b._call_state_bytes!r}")
     md = dict(b._token_metadata(b._state_bytes))
-    if md.get(STATE_KEY) != args["s_a"] or md.get(CALL_STATE_KEY) != want_call:
+    if md.get(STATE_KEY) != args["s_a"] or (md.get(CALL_STATE_KEY) or None) != want_call:
         return f"request metadata after seek: {md!r}"
     if b._pending_batches or b._finished:
         return "seek_to_token left preloaded batches / the finished flag in place"
@@ -444,18 +520,24 @@ def seek_positions_any_session_exactly_at_the_token(s_a: bytes, c_a: bytes, a_no
         _seek(target, tok)
         md = _token_md(target, target._state_bytes)
         again = _resume_token(target)
+        s3, c3 = _dec(again)
+    except HarnessModelError:
+        raise
     except Exception:  # noqa: BLE001
         return False
+    # (an empty call token is never minted: b"" and None both mean "no call token" here)
     want_call = None if (a_none or len(c_a) == 0) else c_a
     # whatever the target session held before (its own /init's tokens, preloaded batches), it now stands exactly where
     # the blob says: the next request carries the blob's cursor AND the blob's call token — the serving node may be cold
-    if target._state_bytes != s_a or target._call_state_bytes != want_call:
+    if target._state_bytes != s_a or (target._call_state_bytes or None) != want_call:
         return False
     if target._pending_batches or target._finished:
         return False
-    if md.get(STATE_KEY) != s_a or md.get(CALL_STATE_KEY) != want_call or len(md) != (1 if want_call is None else 2):
+    # (which other keys the request metadata carries is not asserted)
+    if md.get(STATE_KEY) != s_a or (md.get(CALL_STATE_KEY) or None) != want_call:
         return False
-    return again == tok
+    # and the position it would hand out again is the same resume point
+    return s3 == s_a and (c3 or None) == want_call
 
 
 _SL = pick(3, 5)
